@@ -18,18 +18,21 @@ Known(i) == i \in DOMAIN hb
 
 Live(i, now) == Known(i) /\ now - hb[i] <= Timeout
 Protected(r, now) == Live(r.i, now) /\ r.t >= run[r.i]
-DeadLong(i, now) == ~Known(i) \/ now - hb[i] > Bound
+Max(a, b) == IF a > b THEN a ELSE b
+\* the instance has been silent for longer than the bound - counted from its last heartbeat or, if later (an instance whose heartbeats do
+\* not arrive may still report and acquire), from the record's creation
+DeadLong(r, now) == now - Max(IF Known(r.i) THEN hb[r.i] ELSE 0, r.t) > Bound
 
 ObsOK(e) ==
   LET present == Rng(e.present) IN
   /\ \A r \in {x \in recs : x.kind = "report"} :
         /\ Protected(r, e.now) => <<r.i, r.u>> \in present               \* live instances are left alone
-        /\ DeadLong(r.i, e.now) => <<r.i, r.u>> \notin present            \* dead instances are forgotten within the bound
+        /\ DeadLong(r, e.now) => <<r.i, r.u>> \notin present            \* dead instances are forgotten within the bound
   /\ \A p \in present : \E r \in recs : r.kind = "report" /\ r.i = p[1] /\ r.u = p[2]
 CapOK(e) ==
   LET held == {r \in recs : r.kind = "acquire" /\ r.u = e.u /\ r.n > 0} IN
   /\ (\E r \in held : Protected(r, e.now)) => e.granted < e.max          \* a live instance's count still occupies capacity
-  /\ (\A r \in held : DeadLong(r.i, e.now)) => e.granted = e.max         \* capacity counted for dead instances is free again
+  /\ (\A r \in held : DeadLong(r, e.now)) => e.granted = e.max         \* capacity counted for dead instances is free again
 \* right after a report has been answered the upstream's recorded allocated total is the sum of the quotas on record for it: what a reclaimed
 \* instance held is no longer counted, i.e. available to the others (global-allocate counterpart of CapOK)
 SumOK(e) == e.sum = e.livesum
